@@ -185,13 +185,13 @@ where
     /// distributed freely, or else trailing symbols would end up with zero probability (or
     /// the cumulative distribution function would wrap around).
     #[inline(always)]
-    fn scaled_cumulative(&self, cumulative_float: F) -> Probability
+    fn scaled_cumulative(&self, cumulative_float: F, support_size: usize) -> Probability
     where
         F: AsPrimitive<Probability>,
         usize: AsPrimitive<Probability>,
     {
         let free_weight =
-            wrapping_pow2::<Probability>(PRECISION).wrapping_sub(&self.pmf.as_ref().len().as_());
+            wrapping_pow2::<Probability>(PRECISION).wrapping_sub(&support_size.as_());
         let scaled_cumulative: Probability = (cumulative_float * self.scale).as_();
         scaled_cumulative.min(free_weight)
     }
@@ -255,7 +255,8 @@ where
         // SAFETY: when we initialized `probability_float`, we checked if `symbol` is out of bounds.
         let left_side = unsafe { pmf.get_unchecked(..symbol) };
         let left_cumulative_float = left_side.iter().copied().sum::<F>();
-        let left_cumulative = self.scaled_cumulative(left_cumulative_float) + symbol.as_();
+        let left_cumulative =
+            self.scaled_cumulative(left_cumulative_float, pmf.len()) + symbol.as_();
 
         // It may seem easier to calculate `probability` directly from `probability_float` but
         // this could pick up different rounding errors, breaking guarantees of `EncoderModel`.
@@ -265,7 +266,9 @@ where
             // lead to an inaccessible last quantile due to rounding errors.
             wrapping_pow2(PRECISION)
         } else {
-            self.scaled_cumulative(right_cumulative_float) + symbol.as_() + Probability::one()
+            self.scaled_cumulative(right_cumulative_float, pmf.len())
+                + symbol.as_()
+                + Probability::one()
         };
         let probability = right_cumulative
             .wrapping_sub(&left_cumulative)
@@ -292,6 +295,10 @@ where
         Self::Probability,
         <Self::Probability as BitArray>::NonZero,
     ) {
+        // Read the probability mass function only once so that all parts of this method see the
+        // same slice (`as_ref` is user code).
+        let pmf = self.pmf.as_ref();
+
         // We avoid division completely and float-to-int conversion as much as possible here
         // because they are slow.
 
@@ -303,9 +310,9 @@ where
         // mismatch in rounding errors can only make our bound more conservative.
         let enlarged_scale = (F::one() + F::epsilon() + F::epsilon()) * self.scale;
         let lower_bound =
-            quantile.saturating_sub(self.pmf.as_ref().len().as_()).as_() / enlarged_scale;
+            quantile.saturating_sub(pmf.len().as_()).as_() / enlarged_scale;
 
-        let mut iter = self.pmf.as_ref().iter();
+        let mut iter = pmf.iter();
         let mut next_symbol = 0usize;
         for &next_probability in &mut iter {
             next_symbol = next_symbol.wrapping_add(1);
@@ -319,11 +326,12 @@ where
         // Then search for the correct `symbol` using the same float-to-int conversions as in
         // `EncoderModel::left_cumulative_and_probability`.
         let mut left_cumulative =
-            self.scaled_cumulative(left_cumulative_float) + next_symbol.wrapping_sub(1).as_();
+            self.scaled_cumulative(left_cumulative_float, pmf.len())
+                + next_symbol.wrapping_sub(1).as_();
 
         for &next_probability in &mut iter {
             let right_cumulative =
-                self.scaled_cumulative(right_cumulative_float) + next_symbol.as_();
+                self.scaled_cumulative(right_cumulative_float, pmf.len()) + next_symbol.as_();
             if right_cumulative > quantile {
                 let probability = right_cumulative
                     .wrapping_sub(&left_cumulative)
